@@ -83,6 +83,11 @@ def behaviour(rnd):
     for _ in range(rnd.randrange(1, 13)):
         api = rnd.choice(["ctap2"] * 5 + ["client"] * 4 + ["u2f"] + ["trait"])
         e = env(rnd)
+        if not slot and rnd.random() < 0.06:
+            # the environment changes: enrolment into user verification, presence support, the store's capability
+            cers.append({"api": "env", "op": "reconfig", "env": env(random.Random(2)),
+                         "req": {"uvCap": rnd.choice(["configured", "configured", "unconfigured", "none"]), "upCap": rnd.random() < 0.9,
+                                 "disc": rnd.choice(["full", "nondisc", "forced"])}})
         if api in ("ctap2", "trait"):
             op = rnd.choice(["mc", "ga", "ga", "info"] if api == "ctap2" else ["mc", "ga"])
             r = base_req(rnd, pool)
